@@ -108,3 +108,83 @@ def compare(pid, cases, results, rng, L_of, tag="nestcorr", npert=NPERT):
         else:
             stats["matched"] += 1
     return stats, mism
+
+
+def _m(m):
+    return "(fm " + " ".join(cm.fhex(x) for row in m for x in row) + ")"
+
+
+def prim_exprs(o, kw, rng, npert):
+    mi = int(kw.get("max_interations", 128))
+    tol = kw.get("tolerance", 1e-6)
+    ub = kw.get("upper_bound", 1.79769e+308)
+    acc = "true" if o["acc"] else "false"
+    ex = []
+    for kv in range(npert + 1):
+        mag = 0.0 if kv == 0 else (3e-16 if (npert <= NPERT or kv % 2 == 1) else 2e-15)
+        pt = lambda x: x * (1.0 + rng.uniform(-mag, mag)) if mag else x  # noqa
+        oR1 = [[pt(x) for x in row] for row in o["oR1"]]
+        ot1 = [pt(x) for x in o["ot1"]]
+        d0 = [pt(x) for x in o["data0"]]
+        d1 = [pt(x) for x in o["data1"]]
+        ex.append(f"nesterov_prim_run_f {CTYPE[o['type0']]} {cm.fhex(o['radius0'])} {CTYPE[o['type1']]} {cm.fhex(o['radius1'])} "
+                  f"{acc} {mi}%nat {cm.fhex(tol)} {cm.fhex(ub)} {o['ty0']}%nat {_v(d0)} {o['ty1']}%nat {_v(d1)} {_m(oR1)} {_v(ot1)}")
+    return ex
+
+
+def compare_prim(pid, cases, results, rng, L_of, tag="primcorr", npert=NPERT):
+    """gjk_nesterov_accelerated_primitives against the model RUN from get_minkowski_diff's tuple (no trace)."""
+    exprs, idx = [], []
+    stats = dict(compared=0, matched=0, skipped_unstable=0, skipped_exception=0, mismatch=0, model_evals=0, exits={})
+    for i, (c, r) in enumerate(zip(cases, results)):
+        for key in ("prim_plain", "prim_acc"):
+            o = r.get(key)
+            if o is None:
+                continue
+            if "exc" in o or o.get("type0") not in CTYPE or o.get("type1") not in CTYPE:
+                stats["skipped_exception"] += 1
+                continue
+            ex = prim_exprs(o, c.get("kw", {}), rng, npert)
+            idx.append((i, key, len(exprs), len(ex)))
+            exprs += ex
+    if not exprs:
+        return stats, []
+    outs = cm.coq_eval_lines(pid, HEADER, exprs, tag=tag, per_file=40, timeout=1500)
+    mism = []
+    for (i, key, start, k) in idx:
+        c, o = cases[i], results[i][key]
+        L = L_of(c)
+        ms = []
+        for x in outs[start:start + k]:
+            code, payload, n, evals = parse(x)
+            ms.append(dict(code=code, d=(payload[0] if payload else None), n=n, evals=evals))
+        m0 = ms[0]
+        kf = lambda m: (m["code"], m["n"], m["evals"])  # noqa
+        unstable = any(kf(m) != kf(m0) for m in ms[1:])
+        stats["compared"] += 1
+        stats["model_evals"] += m0["evals"]
+        why = []
+        if m0["code"] in (0, 1):
+            ex_name = f"{key}:{'inside' if m0['code'] else 'separated'}"
+            stats["exits"][ex_name] = stats["exits"].get(ex_name, 0) + 1
+            if bool(m0["code"]) != o["contact"]:
+                why.append(f"contact: model {bool(m0['code'])} implementation {o['contact']}")
+            spread = 0.0
+            for m in ms[1:]:
+                if m["d"] is not None and m0["d"] is not None and np.isfinite(m["d"]) and np.isfinite(m0["d"]):
+                    spread = max(spread, abs(m["d"] - m0["d"]))
+            if m0["d"] is None or not (abs(m0["d"] - o["d"]) <= 1e-9 * L + 1e-9 * abs(o["d"]) + 100.0 * spread):
+                why.append(f"distance: model {m0['d']} implementation {o['d']}")
+            if m0["n"] != o["iterations"]:
+                why.append(f"iterations: model {m0['n']} implementation {o['iterations']}")
+        else:
+            why.append(f"model outcome code {m0['code']} but the implementation returned {o.get('d')}")
+        if why:
+            if unstable:
+                stats["skipped_unstable"] += 1
+            else:
+                stats["mismatch"] += 1
+                mism.append((i, key, "; ".join(why)))
+        else:
+            stats["matched"] += 1
+    return stats, mism
